@@ -31,3 +31,36 @@ add("C08", "boundary taps inside POC_METHODS observing raw estimator returns; "
     "(all arrays over {0,1,2} up to length 8 enumerated completely).",
     "Accuracy fractions and the clean-curve class are the harness' stated "
     "ones (see DESIGN C08); invariance judged for curves with a baseline.")
+add("C01", "ground-truth recovery monitor: curves generated from independent "
+    "reference formulas are fitted by the real code; tap on lmfit.minimize; "
+    "noise bound from a Cramer-Rao computation on the reference Jacobian",
+    "Held on the generated fits (all five models, both segments, three "
+    "sampling laws, leastsq/nelder, four noise levels, weighting widths) "
+    "inside the stated convergence basin.",
+    "Basin, nelder domain (E >= 1 kPa), Clifford identifiability domain and "
+    "the CRB constants are stated in DESIGN C01; ill-conditioned parameters "
+    "are counted and skipped, not judged.")
+add("C04", "post-fit consistency oracle on the real outputs (fit column vs "
+    "reference model of the reported parameters, residual definition, "
+    "chi-square, fixed/varied/expression parameters, NaN discipline) over a "
+    "hostile fit workload incl. early-stopping minimisers and 0-6 point ranges",
+    "Held (apart from the listed known finding) on every optimisation "
+    "observed in the run; thousands of fits per quick run.",
+    "Reference formulas for shipped models, module user function for harness "
+    "models; initial parameters captured by value before the call.")
+add("C05", "tap on lmfit.minimize records the abscissa actually optimised; "
+    "compared bytewise with k*x[fit range]; masks recomputed from the stated "
+    "closed interval / fitted contact point / reported plateau",
+    "Held on the fits observed in all three range modes, bounds placed on "
+    "sample abscissae, inverted / infinite / disjoint / zero-width intervals.",
+    "Plateau search needs >= 7 samples (scipy); convergence clause judged "
+    "conditionally as stated in DESIGN C05.")
+add("C11", "twin-execution monitor: the same curve fitted with k and with 1, "
+    "results compared; every pass' initial contact point observed at the "
+    "lmfit.minimize boundary",
+    "Held on the twin fits observed (3 power-law models, 8 factors, both "
+    "segments, absolute / interval / relative-cp / plateau modes, noise-free "
+    "and SNR>=100).",
+    "Comparisons only on well-posed fits (>= 10 in-contact points); plateau "
+    "selection flips are counted, not judged; weighting on only for exactly "
+    "converged noise-free twins.")
